@@ -1,0 +1,16 @@
+//go:build verif
+
+// Machine-checked contracts for package token (cmdline) (comment-only; see /verif/DESIGN.md).
+
+package token
+
+//@ func signCmd
+//@   property C06
+//@   ghost signedOK bool = false
+//@   ghost signAudit *audit.Info = nil
+//@   ghost published bool = false
+//@   ghost pubCount int = 0
+//@   on call dynamic .Sign(_, _, o) ret (b, e): signedOK = (e == nil); signAudit = o.Audit
+//@   on call signinit.PublishAudit(i) ret (e): published = (e == nil) && i == signAudit; pubCount = pubCount + 1
+//@   ensures @success_means_audited ret0 == nil && signedOK ==> published && pubCount == 1
+//@   ensures @no_record_without_signature pubCount >= 1 ==> signedOK
